@@ -525,8 +525,25 @@ def config(ctx):
     linit = P.func('loader.SgzLoader.__init__')
     for n in ast.walk(linit.node):
         if isinstance(n, ast.Name) and n.id == 'preload' and isinstance(n.ctx, ast.Load):
-            if not isinstance(parent(n), ast.If):
+            q = parent(n)
+            while isinstance(q, (ast.UnaryOp, ast.BoolOp)):
+                q = parent(q)
+            if not isinstance(q, ast.If):
                 bad.append(n)
+                continue
+            # what the test may guard: loading / dropping the in-memory copy, diagnostics, errors - no other value
+            for st in [x for b in (q.body, q.orelse) for s_ in b for x in ast.walk(s_)]:
+                if isinstance(st, (ast.Assign, ast.AugAssign, ast.AnnAssign)):
+                    tg = st.targets if isinstance(st, ast.Assign) else [st.target]
+                    for t_ in tg:
+                        if not (isinstance(t_, ast.Attribute) and t_.attr == 'compressed_volume') and \
+                                not (isinstance(t_, ast.Name) and not any(
+                                    isinstance(y, ast.Name) and y.id == t_.id and isinstance(y.ctx, ast.Load) and
+                                    not any(y is z for s2 in (q.body + q.orelse) for z in ast.walk(s2))
+                                    for y in ast.walk(linit.node))):
+                            bad.append(st)
+                elif isinstance(st, ast.Return) and st.value is not None:
+                    bad.append(st)
     if bad:
         ctx.fail('C15.6', init, enclosing_stmt(bad[0]), 'preload flows into `%s`' % U(enclosing_stmt(bad[0]))[:60])
     else:
